@@ -46,6 +46,9 @@ def run(ctx, res):
             if RR.stores_const("reader.status", 0)(s) or RR.stores_const("->status", 0)(s):
                 resets += 1
     res.notes.append("observation (not a verdict): channel_reader.status is reset to Channel_Ok at %d site(s); acquire_map_read refuses while it is set" % resets)
+    from ..channelarith import rule_linear
+    res.guard(rule_linear, prog, res)
+    res.require_min("R-LIN", 15)
     res.require_min("R-UNMAPPED-PRE", 2)
     res.require_min("R-STOP-SEQ", 5)
     res.require_min("R-PASSTHROUGH", 2)
